@@ -14,7 +14,7 @@ EXPLANATION = (
     "everything else written is a slice of the input. (R3.2) the emission template of nt::write_term / write_triple / "
     "the nq closure is extracted per term kind from all success paths and compared with the N-Quads productions "
     "(`<iri>`, `_:label`, `\"lex\"`, `\"lex\"@tag`, `\"lex\"^^<dt>` iff dt != xsd:string, `<<s p o>>`, graph name only "
-    "for named graphs, exactly one ` .\\n`-terminator per statement). (L3.3, proof) what is written raw is legal raw: "
+    "for named graphs, exactly one ` .\\n`-terminator per statement). (R3.4) the writer never refuses a term: in nt.rs/nq.rs an io::Error is only ever constructed around the error it re-wraps. (L3.3, proof) what is written raw is legal raw: "
     "the validators' languages are included in IRIREF / BLANK_NODE_LABEL (no trailing '.') / LANGTAG, none contains "
     "CR/LF. NOT decided: equality of the re-parsed dataset with the input (needs the parser); rio_turtle is trusted "
     "to implement the W3C N-Triples/N-Quads grammar.")
@@ -324,8 +324,37 @@ def statement_rule(ck, facts, impl_re, what, want):
         ck.bad("R3.2", "R3.2@%s#template" % what, "statements written as %s, expected %s" % (sorted(forms), sorted(want)), c.loc)
 
 
+def no_refusal_rule(ck, facts):
+    """R3.4: the N-Triples / N-Quads writer never refuses a term: every error it returns is the writer's (or the source's).
+    In nt.rs / nq.rs an `io::Error` may only be *constructed* around another error (the `map_err` that re-wraps the io
+    error of an item); an error built from a message or a constant means some well-formed terms are rejected instead of
+    written, which breaks the round trip for exactly those terms."""
+    n = 0
+    made = 0
+    for f in facts.fns.values():
+        if f.crate != "sophia_turtle" or not re.search(r"turtle/src/serializer/(nt|nq)\.rs$", f.file):
+            continue
+        n += 1
+        for bi, t in f.calls():
+            if not call_name_matches(t, r"^std::io::Error::(new|other)$|io::Error::(new|other)$"):
+                continue
+            made += 1
+            payload = t["args"][-1]
+            o = provenance(f, payload, transparent=TRANSPARENT + (r"convert::Into<.*>>?::into$", r"convert::From<.*>>?::from$"))[-1]
+            wraps = o[0] == "param"
+            root = f if f.kind != "Closure" else facts.fns.get(f.root, f)
+            if wraps:
+                ck.ok("R3.4", "%s: io::Error constructed only around the error it re-wraps" % root.name)
+            else:
+                ck.bad("R3.4", "R3.4@%s#refusal" % root.name, "%s builds an io::Error of its own (%s): the N-Triples/N-Quads writer "
+                       "refuses some terms instead of writing them" % (root.name, o[0]), "%s:%s" % (t["file"], t["line"]))
+    ck.floor("R3.4", "functions of the nt/nq serializers", n, 8)
+    ck.extra["io_errors_constructed_in_nt_nq"] = made
+
+
 def run(ck, facts, tier):
     facts.require_crates(["sophia_turtle", "sophia_api", "sophia_iri"])
+    no_refusal_rule(ck, facts)
     quoted_string_rule(ck, facts)
     write_term_rule(ck, facts)
     statement_rule(ck, facts, r"NtSerializer<W> as .*TripleSerializer>::serialize_triples$", "nt statement", {"{triple}.\n"})
